@@ -37,6 +37,26 @@ Fixpoint judge_steps (sc : schema) (i : N) (steps : list step) : N :=
 
 Definition verdict (h : hist) : N := judge_steps (h_schema h) 0 (h_steps h).
 
+(* for mixed histories (C07, C08, C09): requests that are not pure filter queries are judged elsewhere *)
+Fixpoint pure_filter (q : query) : bool :=
+  match q with
+  | QAnd qs | QOr qs => forallb pure_filter qs
+  | QText _ _ _ _ _ _ | QFlat _ _ _ _ _ | QVamana _ _ _ _ _ _ => false
+  | _ => true
+  end.
+Fixpoint judge_steps_lenient (sc : schema) (i : N) (steps : list step) : N :=
+  match steps with
+  | [] => 0
+  | st :: rest =>
+      match s_out st with
+      | OCrash _ => 0
+      | _ =>
+          let c := first_nonzero (map (fun rq => if pure_filter (rq_query (fst rq)) then judge_query sc st rq else 0) (s_queries st)) in
+          if c =? 0 then judge_steps_lenient sc (i + 1) rest else c + 1000 * (i + 1)
+      end
+  end.
+Definition verdict_lenient (h : hist) : N := judge_steps_lenient (h_schema h) 0 (h_steps h).
+
 Fixpoint bad_from (i : N) (cs : list hist) : list (N * N) :=
   match cs with
   | [] => []
